@@ -62,9 +62,19 @@ def run(ctx):
     guards = [s for s in loop.body if isinstance(s, ast.If)]
     guard = None
     for s in loop.body:
-        if isinstance(s, ast.If) and isinstance(s.test, ast.Compare) and isinstance(s.test.ops[0], ast.In) and norm(s.test.left) == cvar:
+        if isinstance(s, ast.If) and isinstance(s.test, ast.Compare) and isinstance(s.test.ops[0], ast.In) and norm(s.test.left) == cvar \
+                and isinstance(s.test.comparators[0], ast.Name):
             guard = s
-    if guard is None or len([s for s in loop.body if not (isinstance(s, ast.Expr) and isinstance(s.value, ast.Constant))]) != 1:
+    body_ = [s for s in loop.body if not (isinstance(s, ast.Expr) and isinstance(s.value, ast.Constant))]
+    if guard is None and body_ and isinstance(body_[0], ast.If) and isinstance(body_[0].test, ast.Compare) and isinstance(body_[0].test.ops[0], ast.NotIn) \
+            and norm(body_[0].test.left) == cvar and len(body_[0].body) == 1 and isinstance(body_[0].body[0], ast.Continue) and not body_[0].orelse:
+        # guard-clause form: `if c not in codes: continue` followed by the block - the same thing as `if c in codes: <block>`
+        g0 = body_[0]
+        guard = ast.If(test=ast.Compare(left=g0.test.left, ops=[ast.In()], comparators=g0.test.comparators), body=body_[1:], orelse=[])
+        guard.lineno = g0.lineno
+        guard.col_offset = g0.col_offset
+        body_ = [guard]
+    if guard is None or len(body_) != 1:
         ctx.violation('C09.1', 'guard:shape', f.loc(loop), 'the signature loop no longer consists of one `if <c> in <type codes>` block: version digits/`?` may advance the cursor')
         return 'C09: structure lost'
     ctx.check(not guard.orelse, 'C09.1', 'guard:no-else', f.loc(guard), 'characters that are not type codes (version digits, ?) do nothing')
@@ -181,94 +191,184 @@ def run(ctx):
               'the argument value is not read as %s[%s][%s] first' % (args_name, cur, cvar))
     vname = vals[0].targets[0].id if vals else 'value'
 
-    # ---- C09.3 kind table ----------------------------------------------------------------------------------------
-    for codes, body, n in chain:
-        if not codes:
-            continue
-        made = set()
-        for s in body:
-            for x in ast.walk(s):
-                if isinstance(x, ast.Call) and isinstance(x.func, ast.Attribute) and x.func.attr == 'append' and norm(x.func.value) == 'args' and x.args:
-                    a = x.args[0]
-                    m = re.match(r'^(?:wl\.)?Arg\.(\w+)\(', norm(a))
-                    if not m:
-                        made.add(('?' + norm(a)[:30], None))
-                        continue
-                    is_new = None
-                    if m.group(1) == 'Object':
-                        fl = a.args[1] if len(a.args) > 1 else None
-                        is_new = fl.value if isinstance(fl, ast.Constant) else '?'
-                    made.add((m.group(1), is_new))
-        for c in sorted(codes):
-            ctx.check(made == KIND.get(c), 'C09.3', 'kind:%s' % c, f.loc(n), 'code %s -> %s (as log mode decodes the printed form)' % (c, sorted(KIND[c], key=str)),
-                      'code %s produces %s, log mode decodes its print-out as %s' % (c, sorted(made, key=str), sorted(KIND.get(c, ()), key=str)))
-        txt = '\n'.join(norm(s) for s in body)
-        if 'i' in codes or 'u' in codes:
-            ctx.check('Arg.Int(int(%s))' % vname in txt, 'C09.3', 'value:int', f.loc(n), 'integers are the union value itself')
-        if 'h' in codes:
-            ctx.check('Arg.Fd(int(%s))' % vname in txt, 'C09.3', 'value:fd', f.loc(n), 'fds are the union value itself')
-        if 'f' in codes:
-            consts = None
-            for x in ast.walk(ast.Module(body=body, type_ignores=[])):
-                if isinstance(x, ast.Call) and norm(x.func) == 'gdb.parse_and_eval' and x.args:
-                    e = x.args[0]
-                    parts = []
+    # ---- C09.3 kind table and value sources (path-based: helpers, conditional expressions and keyword arguments are looked through) --------
+    paths = paths_of(repo, f, unroll=1)
+    ret_paths = [p for p in paths if p.outcome and p.outcome[0] == 'return']
+    ctx.floor('C09.3', len(ret_paths), 9, 'returning paths of extract_message (one loop iteration)')
+    R_ARGS = r"_fast_access\(\w+, 'wl_closure\.args'\)"
+    R_TY = r"_fast_access\(_fast_access\(\w+, 'wl_closure\.message'\), 'wl_message\.types'\)\[0\]"
+    nio = f.params()[3] if len(f.params()) > 3 else 'new_id_is_actually_an_object'
 
-                    def flat(b):
-                        if isinstance(b, ast.BinOp) and isinstance(b.op, ast.Add):
-                            flat(b.left)
-                            flat(b.right)
-                        elif isinstance(b, ast.Constant):
-                            parts.append(b.value)
-                        else:
-                            parts.append('{v}' if norm(b) == 'str(%s)' % vname else '{?%s}' % norm(b))
-                    flat(e)
-                    consts = ''.join(parts)
-            ctx.check(consts == FIXED, 'C09.3', 'value:fixed-formula', f.loc(n), 'fixed-point conversion is libwayland\'s wl_fixed_to_double formula applied to the union value',
-                      'fixed-point formula is %r, wl_fixed_to_double is %r' % (consts, FIXED))
-        def helper_bodies(arg_text):
-            """source text of module-level helpers called in this branch with `arg_text` as their only argument"""
-            out = []
-            for s_ in body:
-                for x in ast.walk(s_):
-                    if isinstance(x, ast.Call) and isinstance(x.func, ast.Name) and len(x.args) == 1 and norm(x.args[0]) == arg_text:
-                        r_ = repo.lookup(f.module, x.func.id)
-                        if r_ and r_[0] == 'func':
-                            out.append((x, '\n'.join(norm(b) for b in r_[1].node.body), r_[1].params()[0]))
-            return out
-        if 's' in codes:
-            guarded = any(isinstance(s, ast.If) and '_is_null(%s)' % vname in norm(s.test) for s in body) and '%s.string()' % vname in txt
-            via = None
-            for call, htxt, hp in helper_bodies(vname):
-                if '_is_null(%s)' % hp in htxt and '%s.string()' % hp in htxt:
-                    via = call
-            if via is not None and not guarded:
-                # helper form: its None result must be tested with `is None`, not by truthiness (an empty string is a string)
-                par = getattr(via, '_parent', None)
-                truthy = isinstance(par, ast.BoolOp) or (isinstance(par, ast.IfExp) and par.test is via) or (isinstance(par, ast.If) and par.test is via) or (isinstance(par, ast.UnaryOp))
-                ctx.check(not truthy, 'C09.3', 'value:string-null-guard', f.loc(n), 'the string is read through a null-guarding helper and only a null pointer gets the placeholder',
-                          'the string value is tested by truthiness (`%s`): a non-null empty string is reported as the null-string placeholder, log mode decodes ""' % norm(par)[:80])
-            else:
-                ctx.check(guarded, 'C09.3', 'value:string-null-guard', f.loc(n), 'the string is read only when the pointer is not null')
-        if 'o' in codes or 'n' in codes:
-            inline = '%s[%s]' % (types_name, cur) in txt and "['name'].string()" in txt and '_is_null(' in txt
-            viah = any('_is_null(%s)' % hp in htxt and "%s['name'].string()" % hp in htxt for call, htxt, hp in helper_bodies('%s[%s]' % (types_name, cur)))
-            ctx.check(inline or viah, 'C09.3', 'value:%s-interface' % ''.join(sorted(codes)), f.loc(n),
-                      'the declared interface comes from the message\'s type array at the same cursor (nil when absent)')
-        if 'o' in codes:
-            ctx.check("_fast_access(%s, 'wl_object.id')" % vname in txt, 'C09.3', 'value:object-id', f.loc(n), 'object ids are read from wl_object.id of the union value')
-        if 'n' in codes:
-            ctx.check('int(%s)' % vname in txt and "_fast_access(%s[%s]['o'], 'wl_object.id')" % (args_name, cur) in txt, 'C09.3', 'value:new-id', f.loc(n),
-                      'new ids are the union value, or the proxy\'s wl_object.id on the client receive path')
-        if 'a' in codes:
-            inner = [x for s in body for x in ast.walk(s) if isinstance(x, ast.For)]
-            ok = len(inner) == 1 and "%s['size']" % vname in txt and "%s['data']" % vname in txt
-            if ok:
-                lp = inner[0]
-                lv = lp.target.id if isinstance(lp.target, ast.Name) else None
-                ok = lv is not None and lv != cur and any('[%s]' % lv in norm(s) for s in lp.body) and 'Arg.Int(int(' in '\n'.join(norm(s) for s in lp.body)
-            ctx.check(ok, 'C09.3', 'value:array-elements', f.loc(n), 'array elements are read size/width times from data with their own index and reported as integers',
-                      'the array branch does not read its elements with an index of its own')
+    def canon(t):
+        t = re.sub(r"<elem0 of _fast_access\(_fast_access\(\w+, 'wl_closure\.message'\), 'wl_message\.signature'\)\.string\(\)>", 'C_', t)
+        t = re.sub(R_ARGS + r"\[0\]\[C_\]", 'V_', t)
+        t = re.sub(R_ARGS + r"\[0\]\['o'\]", 'VO_', t)
+        t = re.sub(R_TY, 'TY_', t)
+        return t
+
+    def code_ok(p, c):
+        """is the path consistent with the signature character being c?"""
+        for a, v in p.decisions:
+            t = canon(a.text)
+            if 'C_' not in t:
+                continue
+            try:
+                e = ast.parse(t, mode='eval').body
+            except SyntaxError:
+                continue
+            if not (isinstance(e, ast.Compare) and len(e.ops) == 1):
+                continue
+            l, r = e.left, e.comparators[0]
+            val = None
+            if isinstance(e.ops[0], ast.Eq):
+                for x, y in ((l, r), (r, l)):
+                    if isinstance(x, ast.Name) and x.id == 'C_' and isinstance(y, ast.Constant):
+                        val = (y.value == c)
+            elif isinstance(e.ops[0], ast.In) and isinstance(l, ast.Name) and l.id == 'C_':
+                if isinstance(r, (ast.Tuple, ast.List, ast.Set)) and all(isinstance(x, ast.Constant) for x in r.elts):
+                    val = c in {x.value for x in r.elts}
+                elif isinstance(r, ast.Constant) and isinstance(r.value, str):
+                    val = c in r.value
+                elif isinstance(r, ast.Name):
+                    val = c in (keys or CODES)
+            if val is not None and val != v:
+                return False
+        return True
+
+    def fact(p, text):
+        for a, v in p.decisions:
+            if canon(a.text) == text:
+                return v
+        return None
+
+    def flat_concat(e, parts):
+        if isinstance(e, ast.BinOp) and isinstance(e.op, ast.Add):
+            flat_concat(e.left, parts)
+            flat_concat(e.right, parts)
+        elif isinstance(e, ast.Constant) and isinstance(e.value, str):
+            parts.append(e.value)
+        elif isinstance(e, ast.JoinedStr):
+            for v_ in e.values:
+                if isinstance(v_, ast.Constant):
+                    parts.append(v_.value)
+                elif isinstance(v_, ast.FormattedValue) and v_.conversion in (-1, 115) and v_.format_spec is None:
+                    parts.append('{v}' if norm(v_.value) in ('V_', 'str(V_)', 'int(V_)') else '{?%s}' % norm(v_.value))
+        else:
+            parts.append('{v}' if norm(e) in ('str(V_)', 'str(int(V_))') else '{?%s}' % norm(e))
+
+    for c in sorted(CODES):
+        cps = []
+        for p in ret_paths:
+            if not code_ok(p, c):
+                continue
+            m_ = re.search(r'tuple\((\w+)\)\)$', p.outcome_text())
+            recv = m_.group(1) if m_ else 'args'
+            apps = [e for e in p.events if e.kind == 'call' and e.ftext == recv + '.append' and e.args]
+            if apps:
+                cps.append((p, apps))
+        ctx.check(bool(cps), 'C09.3', 'kind:%s:has-path' % c, site, 'a path decodes code %s and appends an argument' % c, 'no path of extract_message appends an argument for code %s' % c)
+        made = set()
+        problems = {}
+        for p, apps in cps:
+            if len(apps) != 1:
+                problems.setdefault('one-append', 'code %s appends %d arguments in one iteration on path %s' % (c, len(apps), p.describe()[:200]))
+            for ev in apps:
+                t = canon(norm(ev.args[0]))
+                t_ = re.sub(r'<elem0 of (range\([^<>]*\))>', 'IDX_', t)
+                try:
+                    e = ast.parse(t_, mode='eval').body
+                except SyntaxError:
+                    made.add(('?' + t[:40], None))
+                    continue
+                m = re.match(r'^(?:wl\.)?Arg\.(\w+)$', norm(e.func)) if isinstance(e, ast.Call) else None
+                if not m:
+                    made.add(('?' + t[:40], None))
+                    continue
+                ctor = m.group(1)
+                is_new = None
+                if ctor == 'Object':
+                    fl = e.args[1] if len(e.args) > 1 else None
+                    is_new = fl.value if isinstance(fl, ast.Constant) else '?'
+                made.add((ctor, is_new))
+                a0 = norm(e.args[0]) if e.args else ''
+                tn = fact(p, '_is_null(TY_)')
+                tname = {True: 'None', False: "TY_['name'].string()"}.get(tn)
+                if ctor == 'Int' and a0 != 'int(V_)':
+                    problems.setdefault('value:int', 'the integer reported is %s, not the union value' % a0)
+                if ctor == 'Fd' and a0 != 'int(V_)':
+                    problems.setdefault('value:fd', 'the fd reported is %s, not the union value' % a0)
+                if ctor == 'Float':
+                    consts = None
+                    for x in ast.walk(e):
+                        if isinstance(x, ast.Call) and norm(x.func) == 'gdb.parse_and_eval' and x.args:
+                            parts = []
+                            flat_concat(x.args[0], parts)
+                            consts = ''.join(parts)
+                    if consts != FIXED or not re.match(r'^float\(gdb\.parse_and_eval\(', a0):
+                        problems.setdefault('value:fixed-formula', 'fixed-point formula is %r (as %s), wl_fixed_to_double is %r' % (consts, a0[:60], FIXED))
+                if ctor == 'String':
+                    vn = fact(p, '_is_null(V_)')
+                    want = {True: "'[null string]'", False: 'V_.string()'}.get(vn)
+                    if want is None:
+                        problems.setdefault('value:string-null-guard', 'the string %s is read without testing the pointer for null on path %s' % (a0, p.describe()[-160:]))
+                    elif a0 != want:
+                        problems.setdefault('value:string-null-guard', 'with _is_null(value)=%s the string reported is %s, expected %s (a non-null empty string is a string; log mode decodes "")' % (vn, a0, want))
+                if ctor in ('Null', 'Object') and c in 'on':
+                    got_t = norm(e.args[0]) if ctor == 'Null' else (norm(e.args[0].args[1]) if isinstance(e.args[0], ast.Call) and norm(e.args[0].func).endswith('UnresolvedObject') and len(e.args[0].args) > 1 else '?')
+                    if tname is None or got_t != tname:
+                        problems.setdefault('value:%s-interface' % c, 'declared interface reported is %s with _is_null(types[cursor])=%s; expected %s' % (got_t, tn, tname))
+                if c == 'o':
+                    vn = fact(p, '_is_null(V_)')
+                    if vn is None or (ctor == 'Null') != vn:
+                        problems.setdefault('value:object-null', 'a %s is reported with _is_null(value)=%s' % (ctor, vn))
+                    if ctor == 'Object':
+                        got_id = norm(e.args[0].args[0]) if isinstance(e.args[0], ast.Call) and e.args[0].args else '?'
+                        if got_id != "int(_fast_access(V_, 'wl_object.id'))":
+                            problems.setdefault('value:object-id', 'object id is %s, not wl_object.id of the union value' % got_id)
+                if c == 'n' and ctor == 'Object':
+                    io = fact(p, nio)
+                    want = {True: "int(_fast_access(VO_, 'wl_object.id'))", False: 'int(V_)'}.get(io)
+                    got_id = norm(e.args[0].args[0]) if isinstance(e.args[0], ast.Call) and e.args[0].args else '?'
+                    if want is None or got_id != want:
+                        problems.setdefault('value:new-id', 'new id is %s with %s=%s; expected %s' % (got_id, nio, io, want))
+                if ctor == 'Array':
+                    x = e.args[0] if e.args else None
+                    elt = rng = idx = None
+                    if isinstance(x, ast.ListComp) and len(x.generators) == 1 and not x.generators[0].ifs and isinstance(x.generators[0].target, ast.Name):
+                        idx = x.generators[0].target.id
+                        elt = norm(x.elt)
+                        rng = norm(x.generators[0].iter)
+                    elif isinstance(x, ast.Name):
+                        inner = [ev2 for ev2 in p.events if ev2.kind == 'call' and ev2.ftext == x.id + '.append' and ev2.args]
+                        if not inner:
+                            continue   # zero-element iteration of the inner loop; the one-element path carries the obligation
+                        t2 = canon(norm(inner[0].args[0]))
+                        mm = re.search(r'<elem0 of (range\([^<>]*\))>', t2)
+                        if mm:
+                            rng = mm.group(1)
+                            idx = 'IDX_'
+                            elt = t2.replace(mm.group(0), 'IDX_')
+                    made.add(('Array:elements', None))
+                    me = re.match(r"^(?:wl\.)?Arg\.Int\(int\(V_\['data'\]\.cast\((.+)\.pointer\(\)\)\[(\w+)\]\)\)$", elt or '')
+                    mr = re.match(r"^range\(int\(V_\['size'\]\) // (.+)\.sizeof\)$", rng or '')
+                    if not (me and mr and me.group(2) == idx and me.group(1) == mr.group(1)):
+                        problems.setdefault('value:array-elements', 'array elements are %s for index %s in %s' % (elt, idx, rng))
+        want_made = set(KIND[c]) | ({('Array:elements', None)} if c == 'a' else set())
+        ctx.check(made == want_made, 'C09.3', 'kind:%s' % c, site, 'code %s -> %s (as log mode decodes the printed form)' % (c, sorted(KIND[c], key=str)),
+                  'code %s produces %s, log mode decodes its print-out as %s' % (c, sorted(made, key=str), sorted(want_made, key=str)))
+        names = {'i': ['value:int'], 'u': ['value:int'], 'h': ['value:fd'], 'f': ['value:fixed-formula'], 's': ['value:string-null-guard'],
+                 'o': ['value:o-interface', 'value:object-null', 'value:object-id'], 'n': ['value:n-interface', 'value:new-id'], 'a': ['value:array-elements'], }[c]
+        for k in sorted(set(names) | set(problems)):
+            ctx.check(k not in problems, 'C09.3', '%s:%s' % (k, c) if k in ('value:int', 'one-append') else k, site,
+                      {'value:int': 'integers are the union value itself', 'value:fd': 'fds are the union value itself',
+                       'value:fixed-formula': 'fixed-point conversion is libwayland\'s wl_fixed_to_double formula applied to the union value',
+                       'value:string-null-guard': 'the string is read only when the pointer is not null, and only a null pointer gets the placeholder',
+                       'value:object-null': 'a null object pointer is reported as nil, anything else as an object',
+                       'value:object-id': 'object ids are read from wl_object.id of the union value',
+                       'value:new-id': 'new ids are the union value, or the proxy\'s wl_object.id on the client receive path',
+                       'value:array-elements': 'array elements are read size/width times from data with their own index and one element type, reported as integers',
+                       }.get(k, 'the declared interface comes from the message\'s type array at the same cursor (nil when absent)' if k.endswith('-interface') else 'one argument per code'),
+                      problems.get(k, ''))
     # ---- C09.4 roles --------------------------------------------------------------------------------------------------
     msg_init = repo.func('message.Message.__init__')
     rets = [n for n in f.body_nodes() if isinstance(n, ast.Return)]
@@ -290,22 +390,46 @@ def run(ctx):
               'name, signature and types are fields of closure->message')
     for q, sending, objtype in (('extract.received_message', 'False', True), ('extract.sent_message', 'True', False)):
         g = repo.func(q)
-        calls = [n for n in g.body_nodes() if isinstance(n, ast.Call) and norm(n.func) == 'extract_message']
-        ctx.floor('C09.4', len(calls), 1, 'extract_message call in ' + q)
-        genv = {}
-        for n in g.body_nodes():
-            if isinstance(n, ast.Assign) and isinstance(n.targets[0], ast.Name):
-                genv.setdefault(n.targets[0].id, []).append(norm(n.value))
-        for c in calls:
-            ctx.check(norm(arg_by_name(c, f, 'is_sending')) == sending, 'C09.4', 'direction:%s' % g.name, g.loc(c), '%s reports sent=%s' % (g.name, sending),
-                      '%s reports sent=%s' % (g.name, norm(arg_by_name(c, f, 'is_sending'))))
-            ob = norm(arg_by_name(c, f, 'object'))
-            oid = genv.get('object_id', [''])[0]
-            ctx.check(genv.get(ob, [''])[0].startswith('wl.UnresolvedObject(object_id') and "'wl_closure.sender_id'" in oid, 'C09.4', 'role:sender-id:%s' % g.name, g.loc(c),
-                      'the target object id is the closure\'s sender_id', 'target object is %s with id %s' % (genv.get(ob), oid))
-            ctx.check(norm(arg_by_name(c, f, 'closure')) == 'closure' and any("read_var('closure')" in v for v in genv.get('closure', [])), 'C09.4', 'role:closure:%s' % g.name, g.loc(c), 'the closure decoded is the frame\'s `closure` variable')
-        if objtype:
-            ctx.check(any("'wl_interface.name'" in v and "['interface']" in v for v in genv.get('obj_type', [])), 'C09.4', 'role:interface-name', g.loc(), 'the target interface is target->interface->name')
+        gps = paths_of(repo, g, unroll=1)
+        n_calls = 0
+        for p in gps:
+            evs = [e for e in p.events if e.kind == 'call' and (f in e.targets or e.ftext.split('.')[-1] == 'extract_message')]
+            if p.outcome and p.outcome[0] == 'return':
+                ctx.check(len(evs) == 1, 'C09.4', 'message:from-extract:%s' % g.name, g.loc(), 'every returning path of %s decodes the closure once' % g.name,
+                          'a returning path of %s calls extract_message %d times: %s' % (g.name, len(evs), p.describe()[:200]))
+            for e in evs:
+                n_calls += 1
+                got = {k: norm(arg_by_name(e, f, k)) for k in ('closure', 'object', 'is_sending', 'new_id_is_actually_an_object')}
+                loc = g.loc(e.node) if getattr(e, 'node', None) is not None else g.loc()
+                ctx.check(got['is_sending'] == sending, 'C09.4', 'direction:%s' % g.name, loc, '%s reports sent=%s' % (g.name, sending),
+                          '%s reports sent=%s' % (g.name, got['is_sending']))
+                frame = 'gdb.selected_frame()' if objtype else 'gdb.selected_frame().older()'
+                clo = "%s.read_var('closure')" % frame
+                ctx.check(got['closure'] == clo, 'C09.4', 'role:closure:%s' % g.name, loc, 'the closure decoded is the `closure` variable of the breakpoint\'s %s frame' % ('own' if objtype else 'calling'),
+                          'the closure decoded is %s, expected %s' % (got['closure'], clo))
+                oid = oty = None
+                try:
+                    oe = ast.parse(got['object'], mode='eval').body
+                    if isinstance(oe, ast.Call) and norm(oe.func).endswith('UnresolvedObject') and len(oe.args) == 2:
+                        oid, oty = norm(oe.args[0]), norm(oe.args[1])
+                except SyntaxError:
+                    pass
+                ctx.check(oid == "int(_fast_access(%s, 'wl_closure.sender_id'))" % got['closure'], 'C09.4', 'role:sender-id:%s' % g.name, loc,
+                          'the target object id is the closure\'s sender_id', 'target object is %s' % got['object'])
+                if objtype:
+                    want_t = "_fast_access(gdb.selected_frame().read_var('target')['interface'], 'wl_interface.name').string()"
+                    ctx.check(oty == want_t, 'C09.4', 'role:interface-name', loc, 'the target interface is target->interface->name', 'target object is %s' % got['object'])
+                else:
+                    ctx.check(oty == 'None', 'C09.4', 'role:interface-unknown:%s' % g.name, loc, 'a sent closure has no target object at hand: the interface is left unresolved (None)',
+                              'target object is %s' % got['object'])
+                # new ids are really objects exactly on the client's receive path (dispatch_event)
+                facts = {a.text: v for a, v in p.decisions}
+                disp = [v for t, v in facts.items() if re.match(r"^'dispatch_event' == gdb\.selected_frame\(\)\.older\(\)\.name\(\)$", t)]
+                want_flag = 'True' if (objtype and disp and disp[0]) else 'False'
+                ctx.check(got['new_id_is_actually_an_object'] == want_flag, 'C09.4', 'new-id-flag:%s:%s' % (g.name, want_flag), loc,
+                          'new ids are read from the proxy object exactly when the closure is dispatched on the client side (dispatch_event)',
+                          '%s passes new_id_is_actually_an_object=%s on path %s; expected %s' % (g.name, got['new_id_is_actually_an_object'], p.describe()[:160], want_flag))
+        ctx.floor('C09.4', n_calls, 2 if objtype else 1, 'extract_message call events in ' + q)
     plug = repo.func('Plugin.__init__')
     reg = {}
     for n in plug.body_nodes():
